@@ -452,6 +452,9 @@ def static_chains(plan):
     """mod id -> chain of descriptions, from the plan alone (universe + compile operations)."""
     chains = {}
     for m in plan['universe']:
+        if m.get('builtin'):
+            chains[m['id']] = ('<builtin %s>' % m['builtin'],)
+            continue
         chains[m['id']] = (chains[m['extends']] if m['extends'] is not None else ()) + (m['desc'],)
     # compile operations are resolved in client order; ids are unique
     pending = [op for ops in plan['clients'] for op in ops if op['op'] == 'compile']
